@@ -1,1 +1,121 @@
-//! Type-level witnesses (compile_fail doc-tests with compiling twins) — filled in later.
+//! Type-level witnesses: `compile_fail` doc-tests, each paired with a compiling twin that differs
+//! only by the offending line (a witness whose path is merely wrong would also "fail to compile").
+//! Run by the thorough tier with `cargo +nightly test --doc --offline` (stable ignores the error code).
+//! Twins are `no_run`: they are type-checked, never executed.
+
+/// W-MOVE-SERVER (C03, C07): `ServerLogin::finish` consumes the pending login state, so one state
+/// cannot be offered a second finalization.
+///
+/// ```compile_fail,E0382
+/// use opaque_ke::{CredentialFinalization, ServerLogin};
+/// use suites::SR255R255;
+/// fn f(state: ServerLogin<SR255R255>, m1: CredentialFinalization<SR255R255>, m2: CredentialFinalization<SR255R255>) {
+///     let _ = state.finish(m1);
+///     let _ = state.finish(m2); // use of moved value
+/// }
+/// ```
+pub struct WMoveServer;
+
+/// Twin of W-MOVE-SERVER: cloning first compiles.
+///
+/// ```no_run
+/// use opaque_ke::{CredentialFinalization, ServerLogin};
+/// use suites::SR255R255;
+/// fn f(state: ServerLogin<SR255R255>, m1: CredentialFinalization<SR255R255>, m2: CredentialFinalization<SR255R255>) {
+///     let _ = state.clone().finish(m1);
+///     let _ = state.finish(m2);
+/// }
+/// ```
+pub struct WMoveServerTwin;
+
+/// W-MOVE-CLIENT (C07): `ClientLogin::finish` consumes the client's in-flight state.
+///
+/// ```compile_fail,E0382
+/// use opaque_ke::{ClientLogin, ClientLoginFinishParameters, CredentialResponse};
+/// use suites::SP256C25519;
+/// fn f(state: ClientLogin<SP256C25519>, r1: CredentialResponse<SP256C25519>, r2: CredentialResponse<SP256C25519>) {
+///     let _ = state.finish(b"pw", r1, ClientLoginFinishParameters::default());
+///     let _ = state.finish(b"pw", r2, ClientLoginFinishParameters::default()); // use of moved value
+/// }
+/// ```
+pub struct WMoveClient;
+
+/// Twin of W-MOVE-CLIENT.
+///
+/// ```no_run
+/// use opaque_ke::{ClientLogin, ClientLoginFinishParameters, CredentialResponse};
+/// use suites::SP256C25519;
+/// fn f(state: ClientLogin<SP256C25519>, r1: CredentialResponse<SP256C25519>, r2: CredentialResponse<SP256C25519>) {
+///     let _ = state.clone().finish(b"pw", r1, ClientLoginFinishParameters::default());
+///     let _ = state.finish(b"pw", r2, ClientLoginFinishParameters::default());
+/// }
+/// ```
+pub struct WMoveClientTwin;
+
+/// W-NEWTYPE-PK (C11): a `PublicKey` cannot be built from a raw group element outside the crate
+/// (its field is private); the only way in is the validating decoder.
+///
+/// ```compile_fail,E0423
+/// use opaque_ke::keypair::PublicKey;
+/// use opaque_ke::Ristretto255;
+/// fn f(p: <Ristretto255 as opaque_ke::key_exchange::group::KeGroup>::Pk) -> PublicKey<Ristretto255> {
+///     PublicKey::<Ristretto255>(p) // private tuple-struct constructor
+/// }
+/// ```
+pub struct WNewtypePk;
+
+/// Twin of W-NEWTYPE-PK: going through `deserialize` compiles.
+///
+/// ```no_run
+/// use opaque_ke::keypair::PublicKey;
+/// use opaque_ke::Ristretto255;
+/// fn f(bytes: &[u8]) -> Option<PublicKey<Ristretto255>> {
+///     PublicKey::<Ristretto255>::deserialize(bytes).ok()
+/// }
+/// ```
+pub struct WNewtypePkTwin;
+
+/// W-NEWTYPE-SK (C11): the same for `PrivateKey`.
+///
+/// ```compile_fail,E0423
+/// use opaque_ke::keypair::PrivateKey;
+/// use opaque_ke::Ristretto255;
+/// fn f(s: <Ristretto255 as opaque_ke::key_exchange::group::KeGroup>::Sk) -> PrivateKey<Ristretto255> {
+///     PrivateKey::<Ristretto255>(s) // private tuple-struct constructor
+/// }
+/// ```
+pub struct WNewtypeSk;
+
+/// Twin of W-NEWTYPE-SK.
+///
+/// ```no_run
+/// use opaque_ke::keypair::{PrivateKey, SecretKey};
+/// use opaque_ke::Ristretto255;
+/// fn f(bytes: &[u8]) -> Option<PrivateKey<Ristretto255>> {
+///     PrivateKey::<Ristretto255>::deserialize(bytes).ok()
+/// }
+/// ```
+pub struct WNewtypeSkTwin;
+
+/// W-STATE-PRIVATE (C03): the pending server state's fields are not writable from outside, so the
+/// comparison in `finish` is always against what `start` stored.
+///
+/// ```compile_fail,E0616
+/// use opaque_ke::ServerLogin;
+/// use suites::SR255R255;
+/// fn f(state: ServerLogin<SR255R255>) {
+///     let _ = state.ke2_state; // private field
+/// }
+/// ```
+pub struct WStatePrivate;
+
+/// Twin of W-STATE-PRIVATE: the public encoder is the way to look at a state.
+///
+/// ```no_run
+/// use opaque_ke::ServerLogin;
+/// use suites::SR255R255;
+/// fn f(state: ServerLogin<SR255R255>) {
+///     let _ = state.serialize();
+/// }
+/// ```
+pub struct WStatePrivateTwin;
